@@ -50,7 +50,7 @@ Definition file_ok (s : str) : bool := str_ok s && negb (has_ss s) && negb (memb
 (* the background name sits between double quotes in a comma-separated record *)
 Definition bg_ok (s : str) : bool :=
   negb (memb ch_lf s) && negb (has_ss s) && negb (memb backslash s) && negb (memb comma s) &&
-  negb (first_is 34 s) && negb (first_is 34 (rev s)) && negb (last_ws s).
+  negb (first_is 34 s) && negb (first_is 34 (rev s)).
 (* the name of a custom colour: a key that is not a "Combo" key *)
 Definition color_name_ok (s : str) : bool :=
   str_ok s && negb (has_ss s) && negb (memb colon s) && negb (starts_with (lit colors_combo_prefix) s).
